@@ -245,6 +245,10 @@ func runC07(w *World) *Result {
 	c07Lookup(w, cf, r, "R-C07-lookup")
 	c07Decl(w, cf, r)
 	NewnessStrictRule(w, cf, r, "R-C07-decl")
+	r.Rule("R-C07-wiring", "what the driver tells the converters about a variable (its name and whether it is a global) is taken from that one variable: a local is never written as a global nor a global as a local", 5)
+	WiringRule(w, r, "R-C07-wiring", func(m string) bool {
+		return m == "VarDefinition" || m == "VarAssignment" || m == "VarEvaluation" || m == "SliceAssignment" || m == "Copy"
+	})
 	c07Place(w, cf, r)
 	c07HeaderOrder(w, cf, r, "R-C07-decl")
 	c07Public(w, cf, r, "R-C07-public")
@@ -3532,7 +3536,113 @@ func c09Once(w *World, r *Result, rule string) {
 						}
 					}
 				}
+				// what the include-once answer decides is whether the statements are ADDED; that the
+				// importer gets to know the file's public definitions must not depend on it
+				onceVals := map[ssa.Value]bool{}
+				onceFields := map[[2]interface{}]bool{}
+				for _, b2 := range fn.Blocks {
+					for _, i2 := range b2.Instrs {
+						if lk, ok := i2.(*ssa.Lookup); ok {
+							if u, ok := lk.X.(*ssa.UnOp); ok {
+								if fa, ok := u.X.(*ssa.FieldAddr); ok && fa.X == ssa.Value(fn.Params[0]) && shared[fa.Field] {
+									onceVals[lk] = true
+								}
+							}
+						}
+					}
+				}
+				for changed := true; changed; {
+					changed = false
+					for _, b2 := range fn.Blocks {
+						for _, i2 := range b2.Instrs {
+							switch x := i2.(type) {
+							case *ssa.UnOp:
+								if onceVals[x.X] && !onceVals[x] {
+									onceVals[x] = true
+									changed = true
+								}
+								if fa, ok := x.X.(*ssa.FieldAddr); ok && x.Op == token.MUL {
+									if pt, ok := fa.X.Type().Underlying().(*types.Pointer); ok && onceFields[[2]interface{}{pt.Elem().String(), fa.Field}] && !onceVals[x] {
+										onceVals[x] = true
+										changed = true
+									}
+								}
+							case *ssa.Extract:
+								if onceVals[x.Tuple] && !onceVals[x] {
+									onceVals[x] = true
+									changed = true
+								}
+							case *ssa.Phi:
+								for _, e := range x.Edges {
+									if onceVals[e] && !onceVals[x] {
+										onceVals[x] = true
+										changed = true
+									}
+								}
+							case *ssa.Field:
+								if onceFields[[2]interface{}{x.X.Type().String(), x.Field}] && !onceVals[x] {
+									onceVals[x] = true
+									changed = true
+								}
+							case *ssa.Store:
+								if onceVals[x.Val] {
+									if fa, ok := x.Addr.(*ssa.FieldAddr); ok {
+										if pt, ok := fa.X.Type().Underlying().(*types.Pointer); ok {
+											k := [2]interface{}{pt.Elem().String(), fa.Field}
+											if !onceFields[k] {
+												onceFields[k] = true
+												changed = true
+											}
+										}
+									}
+								}
+							}
+						}
+					}
+				}
+				regGated := ""
+				for _, b2 := range fn.Blocks {
+					for _, i2 := range b2.Instrs {
+						mu, ok := i2.(*ssa.MapUpdate)
+						if !ok {
+							continue
+						}
+						// a store into a table of the parsing context (not into the shared set itself)
+						isCtx := false
+						switch m := mu.Map.(type) {
+						case *ssa.UnOp:
+							if fa, ok := m.X.(*ssa.FieldAddr); ok && fa.X != ssa.Value(fn.Params[0]) {
+								isCtx = true
+							}
+						case *ssa.Field:
+							isCtx = true
+						}
+						if !isCtx {
+							continue
+						}
+						for d := b2; d != nil; d = d.Idom() {
+							par := d.Idom()
+							if par == nil {
+								continue
+							}
+							cnd, _ := condOf(par)
+							if cnd == nil {
+								continue
+							}
+							onT := par.Succs[0].Dominates(b2) && len(par.Succs[0].Preds) == 1
+							onF := par.Succs[1].Dominates(b2) && len(par.Succs[1].Preds) == 1
+							if onT == onF {
+								continue
+							}
+							if onceVals[cnd] {
+								regGated = w.Pos(mu.Pos())
+							}
+						}
+					}
+				}
 				switch {
+				case regGated != "":
+					r.Bad(rule, key, pos, "the importer learns the public definitions of an imported file ("+regGated+") only when the file's statements are added for the first time: a file that another import has already included stays unknown to this importer, and alias.Func is rejected as undefined")
 				case len(shared) == 0:
 					r.Bad(rule, key, pos, "no set of already included files is shared with the parser of the imported file: a file imported by two files (or under two aliases) is added to the program twice — its top-level statements run twice and its private globals are re-initialised between the importers")
 				case !tested:
